@@ -50,6 +50,9 @@ TraceNext ==
      /\ IF e.op \in {"all_versions", "query", "call_versions", "cquery", "relationships", "related_to"} /\ ~NoDup(e.ans)
         THEN Rej(e, IF e.op \in {"all_versions", "query"} THEN "C11:version_returned_twice" ELSE "C18:version_not_deduplicated") ELSE TRUE
      /\ IF ~e.same_content THEN Rej(e, "C11:what_comes_out_differs_from_what_went_in") ELSE TRUE
+     \* reading is not writing: the filter sets attached to the sources of the history (stores, members, composites, nested composites) are what they were before the call
+     /\ IF "filters_kept" \in DOMAIN e /\ ~e.filters_kept
+        THEN Rej(e, IF e.op \in {"cget", "call_versions", "cquery", "relationships", "related_to", "creator_of"} THEN "C18:read_changed_attached_filters" ELSE "C12:read_changed_attached_filters") ELSE TRUE
      /\ UNCHANGED vars
   /\ l' = l + 1
 TraceSpec == TraceInit /\ [][TraceNext]_tvars
